@@ -4,7 +4,7 @@
 # 2. apply to /repo, run the property's quick check (and extra ones), undo
 P=$1; V=$2; shift 2; EXTRA="$@"
 WT=/tmp/wt/$P-tree; OUT=/tmp/wt/$P-out/$V
-FEAT=""; grep -q "__verif" $OUT/demo.rs && FEAT="--features __verif"
+FEAT=""; grep -q "__verif" $OUT/demo.rs && FEAT="--features __verif"; grep -qE "serde_json|bincode" $OUT/demo.rs && FEAT="--features serde"
 cd $WT || exit 9
 git checkout -q -- . ; rm -f tests/seeded_demo.rs
 cp $OUT/demo.rs tests/seeded_demo.rs
